@@ -15,7 +15,7 @@ import ast
 from .lazy import normalise
 from .core import Unsupported, find_def
 
-OUTPUTS = ["GenDriver.v", "GenCma.v"]
+OUTPUTS = ["GenDriver.v", "GenDirection.v"]
 TREE = "pyhms/tree.py"
 INIT = "pyhms/demes/initialize.py"
 # deme class -> (file, machine kind, attribute holding the engine, attribute holding the number of generations)
@@ -831,8 +831,68 @@ def values_for_cma(repo):
     want = {True: f"[-_c0.fitness for _c0 in {an[1]}]", False: f"[_c0.fitness for _c0 in {an[1]}]"}
     if seen != want:
         raise Unsupported(f"{src}:{fn.lineno}: _values_for_cma is not `the negated fitness values for a maximisation problem, the fitness values otherwise`: {seen}")
-    return ("(* GENERATED from pyhms/demes/cma_deme.py by hv/translate/driver_py.py — do not edit *)\nFrom Coq Require Import List.\nFrom HV Require Import F64 WMonad.\n\n"
-            "Definition gen_values_for_cma (mx : bool) (fs : list F) : list F := if mx then map fneg fs else fs.\n")
+    return ("(* GENERATED from pyhms/demes/cma_deme.py and local_deme.py by hv/translate/driver_py.py — do not edit *)\nFrom Coq Require Import List.\nFrom HV Require Import F64 WMonad.\n\n"
+            "Definition gen_values_for_cma (mx : bool) (fs : list F) : list F := if mx then map fneg fs else fs.\n\n" + local_direction(repo))
+
+
+def local_direction(repo):
+    """LocalDeme: the function handed to scipy (a minimiser) and what _history_callback records for an iterate"""
+    from .lazy import canon
+    src = DEMES["LocalDeme"][0]
+    mod = ast.parse(open(f"{repo}/{src}").read())
+    fn = find_def(mod, "run_metaepoch", "LocalDeme")
+    calls = [n for n in ast.walk(fn) if isinstance(n, ast.Call) and dotted(n.func) == "sopt.minimize"]
+    if len(calls) != 1 or not calls[0].args or not isinstance(calls[0].args[0], ast.Name):
+        raise Unsupported(f"{src}:{fn.lineno}: LocalDeme.run_metaepoch: one sopt.minimize(<objective>, ...) call expected")
+    fname = calls[0].args[0].id
+    # the objective: -self._problem.evaluate(...) for a maximisation problem, self._problem.evaluate otherwise
+    defs = {}      # polarity of `self._problem.maximize` -> what `fname` is there
+
+    def what(node):
+        if isinstance(node, ast.FunctionDef) and node.name == fname:
+            an = [a.arg for a in node.args.args]
+            b = [s_ for s_ in node.body if not (isinstance(s_, ast.Expr) and isinstance(s_.value, ast.Constant))]
+            va = node.args.vararg.arg if node.args.vararg else None
+            if len(an) == 1 and len(b) == 1 and isinstance(b[0], ast.Return):
+                u_ = ast.unparse(b[0].value)
+                star = f", *{va}" if va else ""
+                if u_ == f"-self._problem.evaluate({an[0]}{star})":
+                    return "neg"
+                if u_ == f"self._problem.evaluate({an[0]}{star})":
+                    return "id"
+        if isinstance(node, ast.Assign) and ast.unparse(node.targets[0]) == fname:
+            if ast.unparse(node.value) == "self._problem.evaluate":
+                return "id"
+            if isinstance(node.value, ast.Lambda):
+                an = [a.arg for a in node.value.args.args]
+                va = node.value.args.vararg.arg if node.value.args.vararg else None
+                star = f", *{va}" if va else ""
+                if len(an) == 1 and ast.unparse(node.value.body) == f"-self._problem.evaluate({an[0]}{star})":
+                    return "neg"
+        return None
+    ifs = [s_ for s_ in fn.body if isinstance(s_, ast.If) and ast.unparse(s_.test) in ("self._problem.maximize", "not self._problem.maximize")]
+    if len(ifs) != 1 or len(ifs[0].body) != 1 or len(ifs[0].orelse) != 1:
+        raise Unsupported(f"{src}:{fn.lineno}: LocalDeme.run_metaepoch: the objective handed to scipy is not chosen by one `if self._problem.maximize: ... else: ...`")
+    pos = ast.unparse(ifs[0].test) == "self._problem.maximize"
+    defs[pos], defs[not pos] = what(ifs[0].body[0]), what(ifs[0].orelse[0])
+    if defs != {True: "neg", False: "id"}:
+        raise Unsupported(f"{src}:{ifs[0].lineno}: LocalDeme.run_metaepoch: scipy (a minimiser) is not handed -evaluate for a maximisation problem and evaluate otherwise: {defs}")
+    if sum(1 for n in ast.walk(fn) if (isinstance(n, ast.FunctionDef) and n.name == fname) or (isinstance(n, ast.Assign) and ast.unparse(n.targets[0]) == fname)) != 2:
+        raise Unsupported(f"{src}:{fn.lineno}: LocalDeme.run_metaepoch: the objective handed to scipy is defined elsewhere too")
+    # the callback: a COPY of the iterate, with the un-negated value, appended to the run history
+    cb = find_def(mod, "_history_callback", "LocalDeme")
+    an = [a.arg for a in cb.args.args]
+    b = [s_ for s_ in cb.body if not (isinstance(s_, ast.Expr) and isinstance(s_.value, ast.Constant))]
+    ok = len(an) == 2 and len(b) == 3 and isinstance(b[0], ast.Assign) and isinstance(b[0].targets[0], ast.Name)
+    if ok:
+        r_, v_ = an[1], b[0].targets[0].id
+        ok = ast.unparse(b[0].value) == f"Individual(np.copy({r_}.x), problem=self._problem)" and isinstance(b[1], ast.Assign) and ast.unparse(b[1].targets[0]) == f"{v_}.fitness" \
+            and ast.unparse(canon(b[1].value)) == f"-{r_}.fun if self._problem.maximize else {r_}.fun" and ast.unparse(b[2]) == f"self._run_history.append({v_})"
+    if not ok:
+        raise Unsupported(f"{src}:{cb.lineno}: LocalDeme._history_callback is not: a new Individual holding a COPY of the iterate, its fitness = -fun for a maximisation problem else fun, appended to the run history")
+    return ("(* what scipy minimises, and what the callback records for an iterate x for which scipy reports the value v *)\n"
+            "Definition gen_local_objective {G} (mx : bool) (f : G -> F) (x : G) : F := if mx then fneg (f x) else f x.\n"
+            "Definition gen_local_recorded {G} (mx : bool) (x : G) (v : F) : G * F := (x, if mx then fneg v else v).\n")
 
 
 def next_child_id(mod):
@@ -946,4 +1006,4 @@ def translate(repo):
     fns += [f"{TREE}:DemeTree.{m}" for m in ("run_metaepoch", "_do_sprout", "run_sprout", "run_step", "run")]
     out.append(next_child_id(tmod))
     fns.append(f"{TREE}:DemeTree._next_child_id")
-    return {"GenDriver.v": "\n".join(out), "GenCma.v": values_for_cma(repo)}, fns + ["pyhms/demes/cma_deme.py:CMADeme._values_for_cma"]
+    return {"GenDriver.v": "\n".join(out), "GenDirection.v": values_for_cma(repo)}, fns + ["pyhms/demes/cma_deme.py:CMADeme._values_for_cma", "pyhms/demes/local_deme.py:LocalDeme.run_metaepoch[objective handed to scipy]", "pyhms/demes/local_deme.py:LocalDeme._history_callback"]
